@@ -115,10 +115,14 @@ func VH_C10_guard(h *vrt.H) {
 	for i := 0; i < nSigners; i++ {
 		tx.signers = append(tx.signers, h.Bytes(h.Name("signer", i), 20))
 	}
-	nMsgs := h.Choose("nMsgs", 0, 2)
+	maxMsgs, lens := 2, []int{5, 13, 20, 27, 30}
+	if h.Thorough() {
+		maxMsgs, lens = 3, []int{0, 5, 12, 13, 14, 20, 26, 27, 28, 40}
+	}
+	nMsgs := h.Choose("nMsgs", 0, maxMsgs)
 	names := make([]string, nMsgs)
 	for i := 0; i < nMsgs; i++ {
-		names[i] = h.Str(h.Name("msgName", i), []int{5, 13, 20, 27, 30}[h.Choose(h.Name("msgNameLen", i), 0, 4)])
+		names[i] = h.Str(h.Name("msgName", i), lens[h.Choose(h.Name("msgNameLen", i), 0, len(lens)-1)])
 		tx.msgs = append(tx.msgs, vhMsg{name: names[i]})
 	}
 	var sdkTx sdk.Tx = tx
